@@ -131,7 +131,7 @@ PROPS = {
     "C12": dict(
         title="target / exclude / root selection executes exactly the documented closure",
         core=["GT-SELECT"],
-        aux=["GT-ALIAS", "VAL-ROOTS", "VAL-TARGET", "VAL-ALIAS", "REF-MAT", "SIB-FWD"],
+        aux=["GT-ALIAS", "REF-MAT", "SIB-FWD"],
         explanation="Three guarded steps in dominance order roots -> exclude -> targets, each with the right closure primitive "
                     "(descendants incl. self / ancestors incl. self); alias order node, tag, id; the ValueErrors are reachable and "
                     "unconditional under their tests; unexecuted ids read as None.",
